@@ -22,7 +22,11 @@ def main_labels(run):
     def best(prefix, default):
         c = [(n, l) for l, n in cnt.items() if l.startswith(prefix)]
         return max(c)[1] if c else default
-    return best("ws-client#", "ws-client#1"), best("client#", "client#1"), best("ws-server#", "ws-server#1")
+    # a reverse client (server side, namespace R) is not the forward client
+    rev = {e["c"] for e in run["events"] if e["p"] == "call.start" and str((e["a"] or [None, ""])[1]).startswith(("R.", "R_", "r.", "Who", "who", "AliasWho"))}
+    fwd = [(n, l) for l, n in cnt.items() if l.startswith("client#") and l not in rev]
+    client = max(fwd)[1] if fwd else best("client#", "client#1")
+    return best("ws-client#", "ws-client#1"), client, best("ws-server#", "ws-server#1")
 
 
 def requester_events(run, conn=None, client=None):
@@ -311,3 +315,13 @@ def validate_streams(res, runs, name, family="conn"):
             if int(d) != 0:
                 bad.append((r, int(d), int(i), evs))
     return bad, items
+
+
+def reverse_labels(run):
+    """(server-side wsConn acting as requester, its reverse client object) for single-client reverse runs"""
+    import collections
+    rc = collections.Counter(e["c"] for e in run["events"] if e["p"] == "call.start" and str((e["a"] or [None, ""])[1]).startswith(("R.", "R_", "r.", "Who", "who", "AliasWho")))
+    sc = collections.Counter(e["c"] for e in run["events"] if e["c"].startswith("ws-server#") and e["p"] == "loop.take")
+    if len(rc) != 1 or len(sc) != 1:
+        return None
+    return list(sc)[0], list(rc)[0]
